@@ -340,6 +340,10 @@ def x8(ctx, rid):
 
     def judge(f, c, depth, seen):
         """None = fine, else (where, text)"""
+        root0 = prog.fns[f.id].root
+        sites0 = [s for s in core.call_sites_of(prog, root0) if s.bb in s.fn.reachable()]
+        if sites0 and all(startup(prog.fns[s.fn.id].root) for s in sites0):
+            return None     # a helper of the start-up path only (`regenerate_index_if_required` called from Blob::from_file)
         gates, foreign = _x8_gates(prog, f, c.bb)
         if foreign:
             return (f.where(foreign[0][0]), 'an in-session rebuild of the index from the blob file also depends on %s: a check that fails '
@@ -347,10 +351,10 @@ def x8(ctx, rid):
         if gates:
             return None
         root = prog.fns[f.id].root
-        sites = [s for s in core.call_sites_of(prog, root) if s.bb in s.fn.reachable() and not startup(prog.fns[s.fn.id].root)]
-        if f.is_coroutine:
-            # the coroutine body belongs to its stub: callers call the stub
-            sites = [s for s in core.call_sites_of(prog, root) if s.bb in s.fn.reachable() and not startup(prog.fns[s.fn.id].root)]
+        all_sites = [s for s in core.call_sites_of(prog, root) if s.bb in s.fn.reachable()]
+        sites = [s for s in all_sites if not startup(prog.fns[s.fn.id].root)]
+        if all_sites and not sites:
+            return None     # a helper of the start-up path only (`regenerate_index_if_required` called from Blob::from_file)
         if depth <= 0 or not sites or root in seen:
             return (c.where(), 'an in-session rebuild of the index from the blob file is not conditional on a failed IndexTrait::load: '
                     'records of cancelled writes (in the file, in no index) become visible in the running session')
